@@ -112,14 +112,14 @@ theorem ord_step {k : Nat} {s s' : St} (I : Inv k s) (O : Ord s) (h : Step k s s
       exact ⟨List.prefix_refl _, O.snapsPre⟩
     · exact O.taskPre x (by simp [ht, h]) S hS
   | spinOk pre post cold ov S ht hc => exact ord_replace pre post _ _ _ _ ht rfl O
-  | swap pre post cold ov c todo taken S ht => exact ord_replace pre post _ _ _ _ ht rfl O
-  | addHot pre post cold ov c todo taken S ht => exact ord_replace pre post _ _ _ _ ht rfl O
-  | addCount pre post cold ov todo taken S ht => exact ord_replace pre post _ _ _ _ ht rfl O
-  | unlock pre post cold ov todo taken S ht =>
-    have hmine := O.taskPre (Task.colMove cold ov (CStep.unlock :: todo) taken S) (by simp [ht]) S rfl
-    have hact : nActive (pre ++ Task.colMove cold ov (CStep.unlock :: todo) taken S :: post) ≤ 1 := by
+  | swap pre post cold ov c l1 l2 taken S ht => exact ord_replace pre post _ _ _ _ ht rfl O
+  | addHot pre post cold ov c l1 l2 taken S ht hs => exact ord_replace pre post _ _ _ _ ht rfl O
+  | addCount pre post cold ov l1 l2 taken S ht => exact ord_replace pre post _ _ _ _ ht rfl O
+  | unlock pre post cold ov taken S ht =>
+    have hmine := O.taskPre (Task.colMove cold ov [CStep.unlock] taken S) (by simp [ht]) S rfl
+    have hact : nActive (pre ++ Task.colMove cold ov [CStep.unlock] taken S :: post) ≤ 1 := by
       have := I.act; rw [ht] at this; split at this <;> omega
-    have hno := no_other_cut (t := Task.colMove cold ov (CStep.unlock :: todo) taken S) rfl hact
+    have hno := no_other_cut (t := Task.colMove cold ov [CStep.unlock] taken S) rfl hact
     refine ⟨?_, ?_, ?_⟩
     · intro p hp
       simp only [List.mem_append, List.mem_singleton] at hp
